@@ -1,1 +1,43 @@
 // ---- std gaps (assumed specifications of std functions Verus has no spec for) ----
+pub mod vp_std {
+use vstd::prelude::*;
+pub uninterp spec fn vp_spec_min<T>(a: T, b: T) -> T;
+pub assume_specification<T: core::cmp::Ord>[ core::cmp::min::<T> ](a: T, b: T) -> (r: T)
+    ensures r == vp_spec_min(a, b);
+#[verifier::external_body]
+pub broadcast proof fn axiom_min_i64(a: i64, b: i64)
+    ensures #[trigger] vp_spec_min(a, b) == (if a <= b { a } else { b }) {}
+#[verifier::external_body]
+pub broadcast proof fn axiom_min_u64(a: u64, b: u64)
+    ensures #[trigger] vp_spec_min(a, b) == (if a <= b { a } else { b }) {}
+#[verifier::external_body]
+pub broadcast proof fn axiom_min_usize(a: usize, b: usize)
+    ensures #[trigger] vp_spec_min(a, b) == (if a <= b { a } else { b }) {}
+pub broadcast group group_std_gaps { axiom_min_i64, axiom_min_u64, axiom_min_usize }
+pub assume_specification[ <i64 as core::convert::From<u32>>::from ](a: u32) -> (r: i64)
+    ensures r == a as i64;
+pub open spec fn byte_of(w: u32, n: u32) -> u8 { ((w >> (8 * n)) & 0xff) as u8 }
+// u32::to_le_bytes has an anonymous const in its signature that assume_specification cannot name:
+// the call is routed (logged rewrite) through this wrapper whose contract is assumed.
+#[verifier::external_body]
+pub fn vp_u32_to_le_bytes(x: u32) -> (r: [u8; 4])
+    ensures r@[0] == byte_of(x, 0), r@[1] == byte_of(x, 1), r@[2] == byte_of(x, 2), r@[3] == byte_of(x, 3)
+{ x.to_le_bytes() }
+pub assume_specification<T, const N: usize>[ <Box<[T]> as core::convert::From<[T; N]>>::from ](a: [T; N]) -> (r: Box<[T]>)
+    ensures r@ == a@;
+pub assume_specification<T: Clone>[ <[T]>::to_vec ](s: &[T]) -> (r: Vec<T>)
+    ensures r@ == s@;
+pub assume_specification<T, A: core::alloc::Allocator>[ Vec::<T, A>::into_boxed_slice ](v: Vec<T, A>) -> (r: Box<[T], A>)
+    ensures r@ == v@;
+pub assume_specification<'a, T: Clone>[ <Box<[T]> as core::convert::From<&'a [T]>>::from ](a: &[T]) -> (r: Box<[T]>)
+    ensures r@ == a@;
+pub assume_specification<T, A: core::alloc::Allocator>[ <Box<[T], A> as core::convert::From<Vec<T, A>>>::from ](v: Vec<T, A>) -> (r: Box<[T], A>)
+    ensures r@ == v@;
+pub assume_specification<T: Clone, A: core::alloc::Allocator + Clone>[ <Box<[T], A> as Clone>::clone ](b: &Box<[T], A>) -> (r: Box<[T], A>)
+    ensures r@ == b@;
+pub assume_specification[ u32::pow ](b: u32, e: u32) -> (r: u32)
+    requires vstd::arithmetic::power::pow(b as int, e as nat) <= u32::MAX,
+    ensures  r == vstd::arithmetic::power::pow(b as int, e as nat);
+} // mod vp_std
+pub use vp_std::*;
+broadcast use vp_std::group_std_gaps;
